@@ -6,6 +6,7 @@ import (
 
 	"verif/driver"
 	"verif/scen/fscrash"
+	"verif/scen/immut"
 	"verif/scen/kvstore"
 	"verif/scen/linksys"
 	"verif/scen/shared"
@@ -18,6 +19,7 @@ func main() {
 	}
 	driver.Register(shared.S{})
 	driver.Register(fscrash.S{})
+	driver.Register(immut.S{})
 	driver.Register(kvstore.S{})
 	driver.Register(linksys.S06{})
 	driver.Register(linksys.S05{})
